@@ -17,7 +17,8 @@ def run(ctx):
     q = ctx.quick
     rec = ctx.path("rec.ndjson")
     if ctx.replay:
-        raise lib.ToolError("re-run the check: vectors are regenerated from the seed")
+        ctx.regenerate()
+        q = ctx.quick
     lib.harness(["c06-drive", "--seed", ctx.seed, "--n", 600 if q else 20000, "--mods", 1500 if q else 4000], stdout=rec, timeout=1800)
     recs = lib.read_ndjson(rec)
     verdicts, _ = lib.judge_sharded(ctx, "vt/SgrJudge", None, recs, "sgr", nshards=lib.NCPU, timeout=3000)
